@@ -1671,6 +1671,10 @@ class CompressedOption(se.OptionalFlagged):
 
 NAMEVALUES_TERMINATED_TEMPLATE = se.TypedBytesTerminated(
     NameValuesSerializer, terminators=(b"\x00",), empty_is_none=True)
+# In a compressed update the flags say whether the section is there, so an empty
+# section still has its terminator and must get it back when re-serialized.
+NAMEVALUES_COMPRESSED_TEMPLATE = se.TypedBytesTerminated(
+    NameValuesSerializer, terminators=(b"\x00",))
 
 
 @se.subfield_serializer("ObjectUpdateCompressed", "ObjectData", "Data")
@@ -1708,7 +1712,7 @@ class ObjectUpdateCompressedDataSerializer(se.SimpleSubfieldSerializer):
         "SoundGain": CompressedOption(CompressedFlags.SOUND, se.F32),
         "SoundFlags": CompressedOption(CompressedFlags.SOUND, se.IntFlag(SoundFlags, se.U8)),
         "SoundRadius": CompressedOption(CompressedFlags.SOUND, se.F32),
-        "NameValue": CompressedOption(CompressedFlags.NAME_VALUES, NAMEVALUES_TERMINATED_TEMPLATE),
+        "NameValue": CompressedOption(CompressedFlags.NAME_VALUES, NAMEVALUES_COMPRESSED_TEMPLATE),
         # Intentionally not de-quantizing to preserve their real ranges.
         "PathCurve": se.U8,
         "ProfileCurve": se.U8,
